@@ -45,16 +45,21 @@ func descStoreSeq(spec sys.StoreSpec, ops []sop, seq []int) storeCase {
 
 // runStoreSeq replays seq on a fresh store, checking the oracle on the last step.
 func runStoreSeq(c *fw.Ctx, spec sys.StoreSpec, ops []sop, seq []int) (key string, extend, nontrivial bool) {
+	return runStoreSeqFrom(c, spec, ops, seq, len(seq)-1)
+}
+
+// runStoreSeqFrom checks the oracle on every step >= from.
+func runStoreSeqFrom(c *fw.Ctx, spec sys.StoreSpec, ops []sop, seq []int, from int) (key string, extend, nontrivial bool) {
 	r := newStoreRun(spec)
 	defer r.close()
 	cas := descStoreSeq(spec, ops, seq)
 	extend = true
 	panicked := c.Guard(spec.Backend, cas, func() {
 		for i, oi := range seq {
-			last := i == len(seq)-1
+			last := i >= from
 			probs, changed := r.apply(ops[oi], last)
 			if last {
-				nontrivial = changed
+				nontrivial = changed || nontrivial
 				probs = append(probs, r.observeAll()...)
 				for _, p := range probs {
 					c.Violate(p[0], p[1]+"\nhistory: "+strings.Join(cas.Ops, " ; "), cas)
@@ -95,4 +100,66 @@ func c07Replay(c *fw.Ctx, raw json.RawMessage) {
 
 func init() {
 	fw.Register(&fw.Body{ID: "C07", Part: "seq", Run: c07Run, ReplayCase: c07Replay})
+}
+
+// ---------------------------------------------------------------------------------------------
+// "long" clause: start from a non-initial state with 11 messages in one mailbox (ids of
+// different widths, e.g. 9 → 10) and explore every pair of operations from there.
+
+var c07LongOps = func() []sop {
+	var o []sop
+	o = append(o, sop{Kind: "add", MB: 0, Body: 0})
+	for _, r := range []string{"#1", "#2", "#9", "#10", "#11", "latest", "oldest"} {
+		o = append(o, sop{Kind: "get", MB: 0, Ref: r}, sop{Kind: "remove", MB: 0, Ref: r}, sop{Kind: "seen", MB: 0, Ref: r})
+	}
+	o = append(o, sop{Kind: "purge", MB: 0})
+	return o
+}()
+
+func c07LongRun(c *fw.Ctx) {
+	const pre = 11
+	prefix := make([]int, pre) // op 0 = add(m1) eleven times
+	n := 0
+	for _, be := range []string{"mem", "file"} {
+		spec := sys.StoreSpec{Backend: be}
+		for a := -1; a < len(c07LongOps); a++ {
+			for b := -1; b < len(c07LongOps); b++ {
+				if a == -1 && b != -1 {
+					continue
+				}
+				n++
+				if !c.Mine(n) {
+					continue
+				}
+				seq := append([]int{}, prefix...)
+				if a >= 0 {
+					seq = append(seq, a)
+				}
+				if b >= 0 {
+					seq = append(seq, b)
+				}
+				if !c.Begin(func() any { return descStoreSeq(spec, c07LongOps, seq) }) {
+					continue
+				}
+				if _, _, nt := runStoreSeqFrom(c, spec, c07LongOps, seq, pre-1); nt {
+					c.Nontrivial(1)
+					if c.WantSample() {
+						c.Sample(descStoreSeq(spec, c07LongOps, seq))
+					}
+				}
+			}
+		}
+	}
+}
+
+func c07LongReplay(c *fw.Ctx, raw json.RawMessage) {
+	var cas storeCase
+	if err := json.Unmarshal(raw, &cas); err != nil {
+		c.T.Fatalf("VERIF-INFRA bad case: %v", err)
+	}
+	runStoreSeqFrom(c, cas.Spec, c07LongOps, cas.Seq, 0)
+}
+
+func init() {
+	fw.Register(&fw.Body{ID: "C07", Part: "long", Run: c07LongRun, ReplayCase: c07LongReplay})
 }
